@@ -822,6 +822,12 @@ func runMux(c *engine.Ctx) engine.Result {
 	r.Sample(cases[len(cases)/2])
 	for _, mc := range cases {
 		runMuxCase(c, mc, stats)
+		if r.ViolationEvents() >= 12 {
+			// violating executions leave blocked goroutines behind, which makes every further snapshot
+			// slower; the witnesses collected so far are enough
+			r.Set("controlled_part_stopped_early_after_violations", true)
+			break
+		}
 	}
 	r.Set("distinct_hook_event_sequences", len(stats.sigs))
 	verifhook.Set(nil)
